@@ -8,5 +8,5 @@ cd "$(dirname "$0")"
 T=$(mktemp -d /var/tmp/verif-setup-XXXXXX)
 trap 'rm -rf "$T"' EXIT
 (cd harness && $GO test -c -tags verif -o "$T/h.test" . && $GO test -c -race -tags verif -o "$T/h.race.test" .)
-(cd /repo && for c in skylight partial-aftersun recompute-cache sunlight; do $GO build -o "$T/$c" ./cmd/$c; done)
+(cd /repo && for c in skylight partial-aftersun recompute-cache sunlight; do $GO build -o "$T/$c" ./cmd/$c; done; $GO build -race -o "$T/sunlight.race" ./cmd/sunlight)
 echo setup ok
